@@ -73,5 +73,14 @@ def run(ctx):
                                 critical=lambda c, r: r.get("dict", 0) > 0 or r.get("dup", 0) > 0 or r.get("mixed", 0) > 0,
                                 timeout=ctx.q(7000, 14000))
     ba.check_hangs(ctx, res)
+    # auxiliary, outside the TLA+ conformance: the interpolation search under archiveReader.findIndex against its
+    # documented contract, for every sorted slice of length <= 6/7 over dense and extreme prefix values
+    probes = [{"domain": ["0", "1", "2", "3", "4", "7fffffffffffffff", "8000000000000000", "fffffffffffffffe", "ffffffffffffffff"], "maxlen": ctx.q(5, 6)},
+              {"domain": ["a0000000000000", "a0000000000001", "a0000000000002", "a0000000000005", "b000000000000000", "b000000000000001"], "maxlen": ctx.q(6, 7)}]
+    pr = ctx.run_engine(binary, [], probes, shards=1, test_run=ba.TEST, env={"VERIF_MODE": "binsearch"})
+    for c, r in zip(probes, pr):
+        if not r.get("ok"):
+            ctx.violation("C06:" + str(r.get("fp")), r.get("detail", ""), {"case": c, "result": r, "reproduced": True})
+    ctx.cov["aux_prollyBinSearch_comparisons"] = sum(int(r.get("evals", 0)) for r in pr)
     ctx.cov["files_written"] = sum(int(r.get("files", 0)) for r in res if r.get("ok"))
     ctx.cov["archives_with_dictionary"] = sum(int(r.get("dict", 0)) for r in res if r.get("ok"))
